@@ -14,6 +14,22 @@
 #include <set>
 #include <unistd.h>
 #include <time.h>
+#include <dlfcn.h>
+#include <errno.h>
+#include <atomic>
+#include <sys/socket.h>
+
+// accept() of the process, interposed: the next `failAccepts` calls fail as they do when the process is out of descriptors
+// (EMFILE; the pending connection stays in the backlog and the listening socket stays readable)
+static std::atomic<int> failAccepts(0);
+static std::atomic<int> failedAccepts(0);
+extern "C" int accept(int fd, struct sockaddr* a, socklen_t* l)
+{
+	typedef int (*Fn)(int, struct sockaddr*, socklen_t*);
+	static Fn real = (Fn)dlsym(RTLD_NEXT, "accept");
+	if (failAccepts.load() > 0 && failAccepts.fetch_sub(1) > 0) { failedAccepts++; errno = EMFILE; return -1; }
+	return real(fd, a, l);
+}
 using namespace asl;
 using namespace vh;
 
@@ -100,6 +116,8 @@ static std::string runScenario(bool seq, bool unixSock, bool both, int nclients,
 	jitterPct = 10 + (int)(seed % 4) * 15;
 	TestServer* server = new TestServer;
 	server->setSequential(seq);
+	failedAccepts = 0;
+	failAccepts = (pattern == "afail") ? 3 + (int)(seed % 40) : 0;
 	String path;
 	int port = 0;
 	bool bound = false;
@@ -191,6 +209,7 @@ static std::string runScenario(bool seq, bool unixSock, bool both, int nclients,
 		badsock = server->badSockets;
 		serveCalls = server->serveCalls;
 	}
+	failAccepts = 0;
 	delete server;
 	usleep(30000);   // a thread still using the destroyed server would be caught by ASan here
 	for (size_t i = 0; i < cl.size(); i++) cl[i].join();
